@@ -36,6 +36,7 @@ func wiringSpecs(n int, devBound int, prefix string) ([]specCase, explore.Stats)
 			x.Choose("variadic", 2)
 			x.Choose("errs", 2)
 			x.Choose("paramnames", 3) // injector parameters named, blank (_) or unnamed
+			x.Choose("revdecls", 2)   // declarations in reverse order
 			x.Choose("depth", 3)    // the named set wrapped in 0..2 further named sets
 			if reachableDag(n, adj) {
 				x.Choose("place", 3) // 0 one named set, 1 one named set per node, 2 per node and declared pairwise in one var spec
@@ -60,6 +61,7 @@ func wiringSpecs(n int, devBound int, prefix string) ([]specCase, explore.Stats)
 			g.Split = ch["split"] == 1
 			g.Depth = ch["depth"]
 			g.ParamNames = ch["paramnames"]
+			g.ReverseDecls = ch["revdecls"] == 1
 			if ch["place"] > 0 {
 				g.InSet, g.PerNode, g.Split = false, true, false
 				g.PairSets = ch["place"] == 2
@@ -94,6 +96,7 @@ func checkC02(c *h.Check) {
 	}
 	specs = append(specs, noCallSpecs()...)
 	specs = append(specs, rootNamedLibSpecs()...)
+	specs = append(specs, manyTwinsSpecs()...)
 	cases, results := runSpecs(c, specs, map[string]bool{"wiring": true})
 	stdCoverage(c, cases, results, "all DAGs on N labelled types (node i depends on a subset of lower-numbered nodes, last node is the result), function providers by default; deviations (bounded per N, see explorer): node source kind (struct pointer/value, field, pointer-to-field, binding, value, injector parameter), type shape (leaf, pointer, named int, interface, slice), lib-package placement, nested lib set, variadic parameter, error/cleanup mix, nesting depth of the set (0-2 extra levels), one named set per node (also declared pairwise in one var spec), a second injector over the same set objects declared before or after the first. Oracle: every provider argument / struct field / selected field / result carries the identity minted by the model's designated source in the same call; exactly the needed providers run, once. Distinct = distinct rendered source.")
 	c.Coverage["explorer"] = exp
@@ -170,6 +173,47 @@ func rootNamedLibSpecs() []specCase {
 				return &ir.Program{Root: p, Injectors: []*ir.Injector{inj}, ExtraFuncs: []*ir.Func{local}}
 			}
 			out = append(out, specCase{fmt.Sprintf("C02/rootnamedlib/set=%d/local=%d", viaSet, localKind), g})
+		}
+	}
+	return out
+}
+
+// manyTwinsSpecs: k packages that all have the same package name and declare the same identifiers (type T,
+// func New, var Set); the result needs all of them. Exercises name allocation beyond the first few suffixes
+// (cfg..cfg12, t..t12) and every table keyed by a name instead of an import path.
+func manyTwinsSpecs() []specCase {
+	var out []specCase
+	for _, k := range []int{3, 11, 12} {
+		for viaSets := 0; viaSets < 2; viaSets++ {
+			for chain := 0; chain < 2; chain++ {
+				k, viaSets, chain := k, viaSets, chain
+				g := &GraphSpec{}
+				g.custom = func(b *ir.Builder) *ir.Program {
+					p := b.Root
+					var ts []*ir.Type
+					var items []*ir.Item
+					for i := 0; i < k; i++ {
+						pk := &ir.Pkg{Name: "cfg", Rel: fmt.Sprintf("m%02d/cfg", i)}
+						t := b.Leaf(pk, "T")
+						var deps []*ir.Type
+						if chain == 1 && i > 0 {
+							deps = []*ir.Type{ts[i-1]}
+						}
+						f := &ir.Func{Pkg: pk, Name: "New", Params: deps, Out: t, Cleanup: i%2 == 0, Err: i%3 == 0}
+						ts = append(ts, t)
+						if viaSets == 1 {
+							items = append(items, ir.SetRef(&ir.Set{Pkg: pk, Name: "Set", Items: []*ir.Item{ir.FuncItem(f)}}))
+						} else {
+							items = append(items, ir.FuncItem(f))
+						}
+					}
+					r := b.Leaf(p, "R")
+					items = append(items, ir.FuncItem(&ir.Func{Pkg: p, Name: "PR", Params: ts, Out: r}))
+					inj := &ir.Injector{Name: "Init", Out: r, Err: true, Cleanup: true, Items: items}
+					return &ir.Program{Root: p, Injectors: []*ir.Injector{inj}, Hist: 0}
+				}
+				out = append(out, specCase{fmt.Sprintf("C02/manytwins/k=%d/sets=%d/chain=%d", k, viaSets, chain), g})
+			}
 		}
 	}
 	return out
